@@ -81,6 +81,17 @@ T["C19"] = dict(
     technique="TLA+ specification + TLC exhaustive subset enumeration with canary; spec->code replay",
     ref="6. C19")
 
+T["C02"] = dict(
+    text="In spec/Engine.tla a batch is by definition the sequence of its rows (ProcessRows folds the scalar step, carrying value and previous value). TLC (spec/Gen_Engine) evaluates seeded histories of 3-4 rows and one of 8 (= the resolution) over the General engines of the catalogue and lock-previous/default/lock-range variants, checking the design invariants in every state. Each history is executed on the real engine as floats and under every composition into batches, set per variable and through Engine.input_values; every mode must give the specification's per-row outputs, fuzzy outputs and previous values, identical fuzzy_value() strings, and raise exactly when the float mode raises.",
+    note="Histories are seeded samples of the row sets (not exhaustive); 1e-9 tolerance. Known finding: integral defuzzifier of resolution 1 with batches (KNOWN_FINDINGS.txt).",
+    technique="TLA+ interpreter (batch = fold of rows) evaluated by TLC; spec->code replay in float / array / matrix modes under all batch partitions",
+    ref="6. C02")
+T["C13"] = dict(
+    text="spec/MC_Lifecycle.tla: instances are (description, state) pairs of Engine.tla; TLC enumerates every behaviour of 4 (thorough 5) actions over set inputs / process / restart / copy-and-switch / switch / edit a weight / toggle a rule / unload a rule with up to 3 instances on 4 engines (Mamdani, chained blocks, Takagi-Sugeno with a Linear term referencing the engine, lock-previous) and checks history-freedom, restart = fresh, copy = duplicate and independence of the instances not operated on; canary: process without clearing must fail. Every behaviour is replayed on real engines: full projection of every instance after every action plus an identity scan (no shared mutable object, engine references point home).",
+    note="Bounded behaviours; Function terms not yet in the engine description.",
+    technique="TLA+ state machine + TLC exhaustive behaviours with canary; spec->code replay of all behaviours with multi-instance projection",
+    ref="6. C13")
+
 PLANNED = {}
 
 def main():
